@@ -53,6 +53,14 @@ def run(tier, seed):
             return cls(np.arange(6).reshape(2, 3), _buffer=buf)
         if cls is C.PkArrS:
             return cls([{"n": 1, "x": [1.0]}, {"n": 2, "x": [2.0, 3.0]}], _buffer=buf)
+        if cls in (C.PkGridF, C.PkGrid3):
+            shp = (2, 3) if cls is C.PkGridF else (2, 2, 3)
+            a = np.empty(shp, dtype=object)
+            for n_, idx in enumerate(np.ndindex(*shp)):
+                a[idx] = "s" + "".join(map(str, idx)) + "x" * (n_ % 4) * 3
+            return cls(a, _buffer=buf)
+        if cls is C.PkNumF:
+            return cls(np.arange(12, dtype=float).reshape(3, 2, 2) + rnd.random(), _buffer=buf)
         if cls is C.PkHybStatic:
             return cls(p=2.5, q=7, _buffer=buf)
         if cls is C.PkHybDyn:
@@ -64,7 +72,7 @@ def run(tier, seed):
     def value(o):
         return hplain(X, o) if isinstance(o, X.HybridClass) else plain(X, o)
 
-    classes = [C.PkStatic, C.PkOneDyn, C.PkTwoDyn, C.PkNested, C.PkArr, C.PkArr2, C.PkArrS, C.PkHybStatic, C.PkHybDyn, C.PkHybNested]
+    classes = [C.PkStatic, C.PkOneDyn, C.PkTwoDyn, C.PkNested, C.PkArr, C.PkArr2, C.PkArrS, C.PkGridF, C.PkGrid3, C.PkNumF, C.PkHybStatic, C.PkHybDyn, C.PkHybNested]
     for rep in range(2 if tier == "quick" else 8):
         for kind in ("n", "b"):
             bcls = X.context_cpu.BufferNumpy if kind == "n" else X.context_cpu.BufferByteArray
@@ -113,6 +121,18 @@ def run(tier, seed):
                         v[0] = 3.25
                         if o2[0] != 3.25:
                             bad(f"view-write-lost:{key}")
+                    elif cls in (C.PkGridF, C.PkGrid3):
+                        # item by item: a same-length text written at one index is read back there, and only there
+                        idx = tuple(s_ - 1 for s_ in o2._shape)
+                        other = (0,) * len(idx)
+                        keep = o2[other]
+                        o2[idx] = "Z" * len(o2[idx])
+                        if o2[idx] != "Z" * len(o2[idx]) or o2[other] != keep or o[idx] == o2[idx]:
+                            bad(f"write:{key}")
+                    elif cls is C.PkNumF:
+                        o2[2, 1, 0] = -5.0
+                        if o2[2, 1, 0] != -5.0 or o[2, 1, 0] == -5.0 or o2.to_nplike()[2, 1, 0] != -5.0:
+                            bad(f"write:{key}")
                     elif cls is C.PkHybDyn:
                         o2.w[0] = 99
                         o2.k = 5
